@@ -500,7 +500,40 @@ def rule_params_forwarded_(ctx: Ctx, rep: Report) -> None:
     rule_params_forwarded(ctx, rep, "C09.params_forwarded", ('btclib.script.sig_hash', 'btclib.psbt.psbt_view'), 20)
 
 
+def rule_explicit_zero(ctx: Ctx, rep: Report) -> None:
+    """C09.explicit_zero: SIGHASH_DEFAULT is 0, and it is a hash type a caller can
+    name. An optional integer (a `hash_type` argument, a psbt field such as
+    `sig_hash_type`, `sequence`, `output_index`) is defaulted with `is None`,
+    or with `or <zero>` (where falling through on 0 changes nothing) -- never
+    with `x or <something that is not zero>`, which reads an explicit 0 as
+    "not given" and computes the digest of another hash type."""
+    rule = "C09.explicit_zero"
+    n = 0
+    OPT_ATTRS = {"sig_hash_type", "sequence", "output_index", "hash_type", "fallback_lock_time", "tx_modifiable", "required_time_lock_time", "required_height_lock_time"}
+    for q, fi in sorted(ctx.prog.functions.items()):
+        if not (q.startswith("btclib.psbt.") or q.startswith("btclib.script.sig_hash") or q.startswith("btclib.bip322") or q.startswith("btclib.psbt_signer")):
+            continue
+        a = fi.node.args
+        ann = {p_.arg: str(norm(p_.annotation)).replace(" ", "") for p_ in a.posonlyargs + a.args + a.kwonlyargs if p_.annotation is not None}
+        optint = {p_ for p_, t in ann.items() if t in ("int|None", "None|int", "Optional[int]")}
+        for b in own_nodes(fi.node):
+            if not (isinstance(b, ast.BoolOp) and isinstance(b.op, ast.Or)):
+                continue
+            for i, v in enumerate(b.values[:-1]):
+                is_opt = (isinstance(v, ast.Name) and v.id in optint) or (isinstance(v, ast.Attribute) and v.attr in OPT_ATTRS)
+                if not is_opt:
+                    continue
+                n += 1
+                nxt = b.values[i + 1]
+                z = ctx.fold(nxt, fi.module)
+                ok = (isinstance(z, int) and not isinstance(z, bool) and z == 0) and i + 1 == len(b.values) - 1
+                rep.ob(rule, f"{q}:{norm(b)[:60]}", ok, fi.where(b), "falls through on 0 to 0" if ok else
+                       f"`{norm(b)[:80]}` reads an explicit 0 of `{norm(v)}` as absent and takes `{norm(nxt)[:30]}` instead: SIGHASH_DEFAULT (or a sequence / index of 0) named by the caller is replaced")
+    rep.floor(rule, 8)
+
+
 RULES = [
+    ("C09.explicit_zero", rule_explicit_zero),
     ("C09.params_forwarded", rule_params_forwarded_),
     ("C09.own_fields", rule_own_fields),
     ("C09.bip341", rule_bip341),
@@ -513,6 +546,8 @@ RULES = [
 ]
 
 CONTROLS = [
+    {"rule": "C09.explicit_zero", "name": "an explicit SIGHASH_DEFAULT falls through to the input's type", "module": "btclib.psbt.psbt",
+     "edit": lambda ctx: M.sub_expr(ctx, "btclib.psbt.psbt._taproot_sig_hash", lambda n: isinstance(n, ast.If) and norm(n.test) == "hash_type is None", "hash_type = hash_type or psbt_in.sig_hash_type or DEFAULT")},
     {"rule": "C09.bip341", "name": "sha_amounts and sha_script_pub_keys swapped", "module": SH,
      "edit": lambda ctx: M.sub_expr(ctx, f"{SH}.taproot", lambda n: isinstance(n, ast.List) and "precomputed.sha_amounts" in norm(n),
                                     "[precomputed.sha_prevouts, precomputed.sha_script_pub_keys, precomputed.sha_amounts, precomputed.sha_sequences]")},
